@@ -292,9 +292,18 @@ def rt_learners(seed, n):
                             for m in range(N):
                                 Acoef[row, m * Sn + t] -= pomdp.discount_rate * psi[n_, a] * T[s, a, t] * O[a, t, o] * eta[n_, a, o, m]
         return np.linalg.solve(Acoef, bvec).reshape(N, Sn)
-    problems = [('tiger', lambda: Tiger(coherence=rnd.choice([.7, .85]), discount_rate=rnd.choice([.8, .9]))), ('loadunload', lambda: LoadUnload(nstates=4, discount_rate=.9))]
+    # consecutive models of the SAME class with different parameters (a freed model's address is then likely to be reused by the next one)
+    problems = [('tiger', lambda: Tiger(coherence=.7, discount_rate=.8)), ('tiger', lambda: Tiger(coherence=.9, discount_rate=.9)),
+                ('loadunload', lambda: LoadUnload(nstates=4, discount_rate=.9)), ('loadunload', lambda: LoadUnload(nstates=5, discount_rate=.85)),
+                ('tiger', lambda: Tiger(coherence=rnd.choice([.6, .85]), discount_rate=rnd.choice([.8, .95])))]
+    import gc
+    pomdp = res = resg = c = None
     for k in range(n):
         name, mk = problems[k % len(problems)]
+        # the previous model and everything holding it are dropped and collected first: a new model may then live at the address of the old one
+        # (state keyed on object identity must not survive the object)
+        pomdp = res = resg = c = None
+        gc.collect()
         pomdp = mk()
         with warnings.catch_warnings():
             warnings.simplefilter('ignore')
@@ -303,6 +312,9 @@ def rt_learners(seed, n):
             def spy(pomdp_, V, node, **kw):
                 seen.append(np.array(V, dtype=float).copy())
                 return bpi.improve_node_matrix_constraint(pomdp_, V, node, **kw)
+            from symrun import frame as _frame
+            import msdm.core.pomdp.finitestatecontroller as _fsc_mod, msdm.core.pomdp.tabularpomdp as _tp_mod
+            fr0 = _frame.snapshot([bpi, ga, _fsc_mod, _tp_mod])
             st = np.random.get_state()[1][:5].tolist()
             res = bpi.FSCBoundedPolicyIteration(controller_state_count=rnd.choice([1, 2]), iterations=rnd.choice([2, 6]), seed=k, improve_node_fn=spy).train_on(pomdp)
             untouched = np.random.get_state()[1][:5].tolist() == st
@@ -321,6 +333,8 @@ def rt_learners(seed, n):
                 mono = False
         out.append(dict(name='rt:BPI:no-node-value-decreases-between-successive-improvements', ok=mono, witness=w))
         out.append(dict(name='rt:BPI:global-numpy-generator-untouched', ok=untouched, witness=w))
+        ch = _frame.changes(fr0, _frame.snapshot([bpi, ga, _fsc_mod, _tp_mod]))
+        out.append(dict(name='rt:BPI:frame:no-module-level-or-class-level-state-is-left-behind-by-a-training-run', ok=not ch, witness=w, detail='; '.join(ch)))
         with warnings.catch_warnings():
             warnings.simplefilter('ignore')
             tst = torch.random.get_rng_state().tolist()[:8]
@@ -358,7 +372,7 @@ def tasks(tier, seed):
                 T.append(Task('escape_node/%s/N%d' % (sk.name, N), h_escape, (sk, N, seed), tier='B', max_paths=6000, deadline_s=400))
     for (N, A_, O_) in ((1, 1, 1), (2, 2, 2), (2, 1, 3)):
         T.append(Task('with_new_node/N%dA%dO%d' % (N, A_, O_), h_new_node, (N, A_, O_), tier='B'))
-    T.append(Task('rt/learners', rt_learners, (seed, 4 if tier == 'quick' else 16), tier='R', kind='rt', deadline_s=900))
+    T.append(Task('rt/learners', rt_learners, (seed, 6 if tier == 'quick' else 16), tier='R', kind='rt', deadline_s=900))
     return T
 
 
